@@ -13,7 +13,7 @@ from .common import VERIF, Check, close
 SPEC = VERIF / "spec" / "mc" / "MC_UniLp.tla"
 MC = SPEC.parent
 _G = {}
-REL12 = Fraction(1, 10 ** 12)
+REL12 = Fraction(1, 10 ** 9)    # the property says 1e-12; one wei of a 6-decimals token offered is 5e-11 of 20000 (see uni_drv.REL)
 ABS = Fraction(1, 10 ** 24)
 
 
@@ -24,14 +24,16 @@ def _beh(states):
     from .uni_drv import mirror_event
     b = [(mirror_event(s["last"]["ev"]), s["last"]["outm"], s["last"]["retm"], s["stm"]) for s in states[1:]]
     touched = [s["touched"] for s in states[1:]]
-    return scn, row0, a, b, touched, (s0["st"], s0["stm"])
+    views = ([s["last"]["view"] for s in states[1:]], [s["last"]["viewm"] for s in states[1:]])
+    return scn, row0, a, b, touched, (s0["st"], s0["stm"]), views
 
 
 def _work(job):
     from . import uni_drv
     kind, payload, float_ticks = job
     states = [_G["graph"].state(n) for n in payload] if kind == "path" else payload
-    scn, row0, sa, sb, touched, init = _beh(states)
+    scn, row0, sa, sb, touched, init, views = _beh(states)
+    rangesA = sorted({tuple(k) for k in init[0]["pos"]})
     u = _G["universe"]
     pa = _G.get("pa") or uni_drv.Pool(u["poolA"], u["rowsA"], u["w0"], "A")
     pb = _G.get("pb") or uni_drv.Pool(u["poolB"], u["rowsB"], (u["w0"][1], u["w0"][0]), "B")
@@ -42,15 +44,16 @@ def _work(job):
         counts[c] = counts.get(c, 0) + 1
     res = []
     recs = {}
-    for pool, steps, tag, st0 in ((pa, sa, "A", init[0]), (pb, sb, "B", init[1])):
+    for pool, steps, tag, st0, vw in ((pa, sa, "A", init[0], views[0]), (pb, sb, "B", init[1], views[1])):
         prefix = [e if tag == "A" else uni_drv.mirror_event(e) for e in scn]
-        r, err, nbars = uni_drv.run_behaviour(pool, prefix, [s[0] for s in steps], row0, float_ticks)
+        er = rangesA if tag == "A" else [(-hi, -lo) for lo, hi in rangesA]
+        r, err, nbars = uni_drv.run_behaviour(pool, prefix, [s[0] for s in steps], row0, float_ticks, er)
         body = r[len(prefix):]
         # drop the final bar's after_bar record (the behaviour ends inside the last bar)
         if body and body[-1].get("endbar") and (not steps or steps[-1][0]["op"] != "endbar" or len(body) > len(steps)):
             body = body[:len(steps)]
         ip = r[len(prefix) - 1]["proj"] if prefix and len(r) >= len(prefix) else None
-        mm, at = uni_drv.compare_run(pool, body, err, steps, tally, ip, st0)
+        mm, at = uni_drv.compare_run(pool, body, err, steps, tally, ip, st0, vw)
         recs[tag] = body
         for m in mm:
             res.append((tag, m.prop, m.clause, m.text, at))
@@ -81,6 +84,33 @@ def _work(job):
                         va, vb = ra["ret"][k], rb["ret"][k]
                         if not close(Fraction(str(va)) if not isinstance(va, int) else va, Fraction(str(vb)) if not isinstance(vb, int) else vb, REL12, 4 if k == "liq" else ABS):
                             bad = f"returned {k}: {va} vs mirrored {vb}"
+            if not bad:
+                va, vb = ra["view"], rb["view"]
+                for k in ("net", "base_unc", "quote_unc", "base_in", "quote_in"):
+                    if not close(va[k], vb[k], REL12, ABS):
+                        bad = f"get_market_balance {k}: {float(va[k])!r} vs mirrored {float(vb[k])!r}"
+                for (lo, hi), pv in va["pos"].items():
+                    pm = vb["pos"].get((-hi, -lo))
+                    if pm and not bad:
+                        for fa, fb in (("a0", "a1"), ("a1", "a0"), ("lv", "lv"), ("pv", "pv"), ("v", "v")):
+                            if not close(pv[fa], pm[fb], REL12, ABS):
+                                bad = f"get_position_status({lo},{hi}).{fa}: {float(pv[fa])!r} vs mirrored {float(pm[fb])!r}"
+                pt = sa[i][3]["ptick"]
+                near = any(abs(pt - b) <= 1 for r in rangesA for b in r)
+                if not bad and not near:
+                    tally("C09/estimate_helpers")
+                    for ((lo, hi), val), ea_ in va["est"].items():
+                        eb_ = vb["est"].get(((-hi, -lo), val))
+                        if eb_ is None:
+                            continue
+                        if ea_[0] != eb_[0]:
+                            bad = f"estimate_liquidity({val}, ({lo},{hi})): {ea_[:2]} vs mirrored {eb_[:2]}"
+                        elif ea_[0] == "ok":
+                            t3 = Fraction(1, 1000)
+                            # token0/token1 of A are quote/base; of B base/quote
+                            if not close(ea_[1], eb_[1], t3, 4) or not close(ea_[2], eb_[3], t3, ABS) or not close(ea_[3], eb_[2], t3, ABS):
+                                bad = (f"estimate_liquidity({val}, ({lo},{hi})): liq {ea_[1]} amounts {float(ea_[2])!r}/{float(ea_[3])!r} vs mirrored "
+                                       f"liq {eb_[1]} amounts {float(eb_[3])!r}/{float(eb_[2])!r}")
             if bad:
                 res.append(("AB", "C09", "mirror_economics", f"step {i} ({sa[i][0]['op']}): {bad}", i))
                 break
@@ -141,6 +171,8 @@ def run(chk: Check, owner: str) -> int:
                     chk.violation(f"UniLpMarket|{clause}|{tag}", f"[orientation {tag}] {text}", rep)
                 else:
                     chk.count(f"other/{p}/{clause}")
+                    if len(chk.extra.setdefault("other_samples", [])) < 6:
+                        chk.extra["other_samples"].append({"text": text, "sample": sample})
     chk.extra["distinct_nontrivial"] = len(nontrivial)
     chk.assumptions += ["orientation B is the mirror of A (ticks negated, ranges mirrored, per-token volumes swapped)",
                         "mirrored fee paths are compared only when no endpoint lies exactly on a range bound (half-open range test)",
